@@ -79,7 +79,8 @@ def system_spec(max_types=3, big=False, methods=('krylov',), min_types=1, allow_
             om_self = [_omega_self(x, big) for x in d]
             pots = st.lists(_potential(kT), min_size=n * (n + 1) // 2, max_size=n * (n + 1) // 2)
             return st.tuples(st.sampled_from(lengths), st.tuples(*om_self), pots,
-                             st.lists(specs.fl(0.1, 1.0, 3), min_size=n, max_size=n), specs.logfloat(-3, -0.4, 3),
+                             # composition weights: mostly comparable, sometimes a component orders of magnitude more dilute than the others
+                             st.lists(st.one_of(specs.fl(0.1, 1.0, 3), specs.fl(0.1, 1.0, 3), specs.fl(0.1, 1.0, 3), specs.logfloat(-5, -1, 3)), min_size=n, max_size=n), specs.logfloat(-3, -0.4, 3),
                              st.lists(st.tuples(st.integers(0, 13), st.booleans()), min_size=n * (n + 1) // 2, max_size=n * (n + 1) // 2),
                              st.sampled_from(list(methods)), st.booleans(),
                              st.one_of(st.none(), st.none(), st.tuples(st.integers(1, 12), st.integers(1, 12), st.sampled_from([1.0, 1.2]))),
